@@ -33,6 +33,36 @@ def check(ctx):
              "truncating or reordering operation is applied to a sequence of declarations, style declarations or rule sets")
     for rid, fn in (("C19-A", rule_a), ("C19-B", rule_b), ("C19-C", rule_c), ("C19-D", rule_d), ("C19-E", rule_e), ("C19-F", rule_f)):
         ctx.guard(rid, fn)
+    if ctx.has_css:
+        ctx.rule("C19-G", "every rule set takes part in the cascade with its own selector's specificity: computed_style tests "
+                 "selector.matches on every path through the rule loop and merges a rule exactly when it matched (shared with C20-C)")
+        from . import C20
+
+        def _as_c19(c):
+            class _P:
+                def __init__(self, c_):
+                    self._c = c_
+
+                def __getattr__(self, n):
+                    return getattr(self._c, n)
+
+                def check(self, okc, _rid, *a, **k):
+                    return self._c.check(okc, "C19-G", *a, **k)
+
+                def violation(self, _rid, *a, **k):
+                    return self._c.violation("C19-G", *a, **k)
+
+                def ok(self, _rid, *a, **k):
+                    return self._c.ok("C19-G", *a, **k)
+
+                def floor(self, _rid, *a, **k):
+                    return self._c.floor("C19-G", *a, **k)
+            return _P(c)
+        ctx.facts.upvar_depth = 8
+        try:
+            ctx.guard("C19-G", lambda c: C20.rule_c(_as_c19(c)))
+        finally:
+            ctx.facts.upvar_depth = 2
 
 
 # ---------------------------------------------------------------------------------------------
